@@ -1,1 +1,543 @@
-fn main(){}
+//! iqe-translate — Rust → Lean 4 translator for small loop-free decision functions.
+//!
+//!     iqe-translate --repo /repo --items items.json --out /verif/lean/IQE/Gen
+//!
+//! Parses the named source files with `syn`, translates every item listed in
+//! `items.json` and writes one Lean file per output module (`<Module>.lean`,
+//! namespace `IQE.Gen.<Module>`, targeting the hand-written prelude
+//! `IQE.Core.Rs`) plus `manifest.json`. An item that cannot be translated never
+//! aborts the run: it is left out of the Lean output (a `-- FAILED:` comment
+//! takes its place), marked `"fail"` in the manifest, and the exit code is 3
+//! (0 when every item translated, 2 for usage / configuration errors).
+//! Output is deterministic: identical sources give byte-identical files.
+//!
+//! # Supported subset
+//!
+//! Types: all Rust integer types → `Int`; `bool` → `Bool`; `f64` → `IQE.F64`;
+//! `&str`/`String` → `Rs.Str`, or Lean `String` when the value is the scrutinee
+//! of a `match` on string literals; `Option<T>` → `Option T`; `Result<T, E>` →
+//! `Except String T` (the error payload is replaced by a fixed string naming the
+//! match arm that produced it); tuples; enums / structs translated in the same
+//! run; config `opaque` types (a Lean type name, or `null` for an abstract type
+//! variable); a type parameter `T: PartialOrd` → `{T : Type} [Rs.Cmp T]`.
+//! References, `*x`, `&x`, `.clone()`, `.as_str()`, `.as_ref()`, `.copied()` are erased.
+//!
+//! Items: `enum` → `inductive … deriving DecidableEq, Repr, Inhabited`;
+//! `struct` → `structure` restricted to the configured fields, plus
+//! `<S>.inRange`; `const` → `def NAME : Int := <expr kept structurally>`
+//! (no range condition: rustc rejects overflowing constant expressions);
+//! `fn` / method → `def f`, `def f_inRange : Prop`, `def f_argsInRange : Prop`
+//! (and `def f_reachable : Bool` when the body contains `unreachable!()`);
+//! expression *slices* (one expression inside a larger function selected by a
+//! structural locator; its free variables become parameters).
+//! Items are emitted in `items.json` order and may call only items listed earlier.
+//!
+//! Expressions: literals; paths; `! -`; `+ - * / % && || == != < <= > >=`;
+//! `if/else`, `if let … else`; `match` over enums / tuples / literals / `_` /
+//! bindings / top-level or-patterns / `Some None Ok Err`, with guards (a guarded
+//! arm becomes `if guard then body else <match on the remaining arms>`);
+//! `matches!(e, pat if guard)`; blocks with `let` (tuple destructuring,
+//! shadowing); half-open ranges `a..b` (→ pair); `unreachable!()` in result
+//! position (→ designated default `0`/`default`, tracked by `f_reachable`);
+//! `Some(..) Ok(..) Err(..)`; calls of earlier translated functions; struct
+//! field reads; the std methods `min max clamp saturating_sub saturating_add
+//! div_ceil abs checked_add is_some is_none unwrap_or map_or map` plus per-item
+//! `methods`. `as` between integer types is the identity on `Int` plus a range
+//! side condition (omitted when every source value fits the target type); any
+//! other cast needs an entry in the item's `casts` and becomes a function parameter.
+//! Comparisons are always `Rs.Cmp.lt/le/eq`, `Rs.gt/ge/ne` (structural `==`/`!=`
+//! on enums, options, tuples, strings). Unsigned `/ %` → `Rs.divU/remU`, signed →
+//! `Rs.divI/remI`; undeterminable signedness fails the item.
+//!
+//! Control flow: pure `if`/`match`/`let` expressions where possible. A function
+//! with early `return` or (for `&mut self`) field assignment becomes
+//! `Id.run do` with one `let mut self_<field>` per assigned field; a `&mut self`
+//! method returns `(newSelf, result)`. `let x = if … { …; return v; … } else { … };`
+//! becomes the nested do-element `let x ← if … then … else …`.
+//!
+//! Range side conditions (`f_inRange`): for every `+ - *`, unary `-`, integer
+//! cast, `abs`, `clamp` (`Rs.clampOk`), `/ % div_ceil` (divisor ≠ 0; signed: not
+//! `MIN / -1`), configured method precondition and call of a translated function
+//! (`g_inRange args`): `lo ≤ node ∧ node ≤ hi` for the node's Rust type, guarded
+//! by the path condition (the proposition mirrors `if`/`match`/`let`/`&&`/`||`;
+//! in do-mode it is a do-block of the same shape accumulating `ok`). Nodes whose
+//! type could not be inferred are listed as `-- untyped arithmetic node: …`.
+//!
+//! Not supported (the item fails): loops, `?`, `let … else`, struct literals,
+//! closures other than the argument of `map`/`map_or`, f64 arithmetic, bit
+//! operations and shifts, signed saturating ops, nested or-patterns, range and
+//! slice patterns, string literals as values, tuple field access, macros other
+//! than `matches!`/`unreachable!` (`format!` only inside an erased `Err(…)`).
+
+mod ir;
+mod trans;
+
+use quote::ToTokens;
+use serde_json::{json, Value};
+use std::collections::BTreeMap;
+use std::path::{Path, PathBuf};
+use syn::spanned::Spanned;
+use syn::visit::{self, Visit};
+use trans::{Cx, ItemCfg, MethodCfg, Registry, R};
+
+const MARKER: &str = "-- GENERATED by iqe-translate from /repo — do not edit";
+
+fn fnv1a(s: &str) -> String {
+    let mut h: u64 = 0xcbf29ce484222325;
+    for b in s.bytes() {
+        h ^= b as u64;
+        h = h.wrapping_mul(0x100000001b3);
+    }
+    format!("{:016x}", h)
+}
+
+// ---------------------------------------------------------------- source lookup
+
+struct Sources {
+    repo: PathBuf,
+    files: BTreeMap<String, Result<syn::File, String>>,
+}
+impl Sources {
+    fn get(&mut self, rel: &str) -> R<&syn::File> {
+        if !self.files.contains_key(rel) {
+            let p = self.repo.join(rel);
+            let parsed = std::fs::read_to_string(&p)
+                .map_err(|e| format!("cannot read {}: {}", rel, e))
+                .and_then(|s| syn::parse_file(&s).map_err(|e| format!("cannot parse {}: {}", rel, e)));
+            self.files.insert(rel.to_string(), parsed);
+        }
+        self.files[rel].as_ref().map_err(|e| e.clone())
+    }
+}
+
+/// All items of a file, looking through inline modules.
+fn all_items(items: &[syn::Item]) -> Vec<&syn::Item> {
+    let mut out = vec![];
+    for it in items {
+        out.push(it);
+        if let syn::Item::Mod(m) = it {
+            if let Some((_, inner)) = &m.content {
+                out.extend(all_items(inner));
+            }
+        }
+    }
+    out
+}
+
+fn find_fn<'a>(file: &'a syn::File, imp: Option<&str>, name: &str) -> R<(&'a syn::Signature, &'a syn::Block, String, proc_macro2::Span)> {
+    for it in all_items(&file.items) {
+        match (it, imp) {
+            (syn::Item::Fn(f), None) if f.sig.ident == name => {
+                return Ok((&f.sig, &f.block, f.to_token_stream().to_string(), f.span()));
+            }
+            (syn::Item::Impl(i), Some(ty)) if i.trait_.is_none() && type_name(&i.self_ty) == ty => {
+                for ii in &i.items {
+                    if let syn::ImplItem::Fn(f) = ii {
+                        if f.sig.ident == name {
+                            return Ok((&f.sig, &f.block, f.to_token_stream().to_string(), f.span()));
+                        }
+                    }
+                }
+            }
+            _ => {}
+        }
+    }
+    Err(match imp {
+        Some(t) => format!("method `{}::{}` not found", t, name),
+        None => format!("fn `{}` not found", name),
+    })
+}
+
+fn type_name(t: &syn::Type) -> String {
+    match t {
+        syn::Type::Path(p) => p.path.segments.last().map(|s| s.ident.to_string()).unwrap_or_default(),
+        _ => String::new(),
+    }
+}
+
+// ---------------------------------------------------------------- slice locators
+
+enum Loc {
+    Let(String),
+    Match(String),
+    Return,
+}
+struct Finder {
+    loc: Loc,
+    hits: Vec<syn::Expr>,
+}
+fn squash(s: &str) -> String {
+    s.chars().filter(|c| !c.is_whitespace()).collect()
+}
+impl<'a> Visit<'a> for Finder {
+    fn visit_local(&mut self, l: &'a syn::Local) {
+        if let Loc::Let(name) = &self.loc {
+            let mut p = &l.pat;
+            if let syn::Pat::Type(t) = p {
+                p = &t.pat;
+            }
+            if let (syn::Pat::Ident(i), Some(init)) = (p, &l.init) {
+                if i.ident == name {
+                    self.hits.push((*init.expr).clone());
+                }
+            }
+        }
+        visit::visit_local(self, l);
+    }
+    fn visit_expr_match(&mut self, m: &'a syn::ExprMatch) {
+        if let Loc::Match(s) = &self.loc {
+            if squash(&m.expr.to_token_stream().to_string()) == squash(s) {
+                self.hits.push(syn::Expr::Match(m.clone()));
+            }
+        }
+        visit::visit_expr_match(self, m);
+    }
+    fn visit_expr_return(&mut self, r: &'a syn::ExprReturn) {
+        if let (Loc::Return, Some(e)) = (&self.loc, &r.expr) {
+            self.hits.push((**e).clone());
+        }
+        visit::visit_expr_return(self, r);
+    }
+}
+
+/// Resolve a structural locator inside a function body:
+/// `{"let": name}` / `{"match": scrutinee text}` / `{"return": true}` (with optional
+/// `"nth"`, 0-based, in source order, searching nested blocks, loops and closures),
+/// `{"tail_of": true}`; optional `"arg_of": "Ok"` then steps into a one-argument call.
+fn locate(body: &syn::Block, loc: &Value) -> R<syn::Expr> {
+    let nth = loc.get("nth").and_then(|v| v.as_u64()).unwrap_or(0) as usize;
+    let mut found = if loc.get("tail_of").and_then(|v| v.as_bool()) == Some(true) {
+        match body.stmts.last() {
+            Some(syn::Stmt::Expr(e, None)) => e.clone(),
+            _ => return Err("locator tail_of: the function has no tail expression".into()),
+        }
+    } else {
+        let (kind, what) = if let Some(n) = loc.get("let").and_then(|v| v.as_str()) {
+            (Loc::Let(n.to_string()), format!("let {}", n))
+        } else if let Some(s) = loc.get("match").and_then(|v| v.as_str()) {
+            (Loc::Match(s.to_string()), format!("match {}", s))
+        } else if loc.get("return").is_some() {
+            (Loc::Return, "return".to_string())
+        } else {
+            return Err(format!("unknown locator {}", loc));
+        };
+        let mut f = Finder { loc: kind, hits: vec![] };
+        f.visit_block(body);
+        if nth >= f.hits.len() {
+            return Err(format!("locator `{}` #{} no longer resolves ({} candidates)", what, nth, f.hits.len()));
+        }
+        f.hits.swap_remove(nth)
+    };
+    if let Some(callee) = loc.get("arg_of").and_then(|v| v.as_str()) {
+        found = match &found {
+            syn::Expr::Call(c) if squash(&c.func.to_token_stream().to_string()) == callee && c.args.len() == 1 => {
+                c.args[0].clone()
+            }
+            _ => return Err(format!("locator arg_of: the located expression is not `{}(…)`", callee)),
+        };
+    }
+    Ok(found)
+}
+
+// ---------------------------------------------------------------- configuration
+
+fn str_of<'a>(v: &'a Value, key: &str) -> Option<&'a str> {
+    v.get(key).and_then(|x| x.as_str())
+}
+
+/// Merge the `opaque` / `methods` / `casts` keys of `v` into `cfg`.
+fn read_cfg(cfg: &mut ItemCfg, v: &Value) {
+    match v.get("opaque") {
+        Some(Value::Object(m)) => {
+            for (k, x) in m {
+                cfg.opaque.insert(k.clone(), x.as_str().filter(|s| !s.is_empty()).map(String::from));
+            }
+        }
+        Some(Value::Array(a)) => {
+            for x in a.iter().filter_map(|x| x.as_str()) {
+                cfg.opaque.insert(x.to_string(), None);
+            }
+        }
+        _ => {}
+    }
+    if let Some(Value::Object(m)) = v.get("methods") {
+        for (k, x) in m {
+            let mc = match x {
+                Value::String(s) => MethodCfg { lean: s.clone(), ret: None, pre: None },
+                _ => MethodCfg {
+                    lean: str_of(x, "lean").unwrap_or_default().to_string(),
+                    ret: str_of(x, "ret").map(String::from),
+                    pre: str_of(x, "pre").map(String::from),
+                },
+            };
+            cfg.methods.insert(k.clone(), mc);
+        }
+    }
+    if let Some(Value::Object(m)) = v.get("casts") {
+        for (k, x) in m {
+            if let Some(s) = x.as_str() {
+                cfg.casts.insert(k.clone(), s.to_string());
+            }
+        }
+    }
+}
+
+// ---------------------------------------------------------------- per-item translation
+
+struct Done {
+    lean: String,
+    defs: Vec<String>,
+    deps: Vec<String>,
+}
+#[derive(Default)]
+struct Meta {
+    start: usize,
+    end: usize,
+    hash: String,
+}
+
+fn set_meta(meta: &mut Meta, span: proc_macro2::Span, text: &str) {
+    meta.start = span.start().line;
+    meta.end = span.end().line;
+    meta.hash = fnv1a(text);
+}
+
+fn translate_item(src: &mut Sources, reg: &mut Registry, module: &str, mcfg: &ItemCfg, item: &Value, meta: &mut Meta) -> R<Done> {
+    let kind = str_of(item, "kind").ok_or("item without `kind`")?;
+    let file_rel = str_of(item, "file").ok_or("item without `file`")?.to_string();
+    let name = str_of(item, "name").ok_or("item without `name`")?.to_string();
+    let imp = str_of(item, "impl").map(String::from);
+    let mut cfg = mcfg.clone();
+    read_cfg(&mut cfg, item);
+    let file = src.get(&file_rel)?;
+    let reg_ro: &Registry = reg;
+    let mut cx = Cx::new(reg_ro, module, &cfg, imp.clone());
+    let where_ = |a: usize, b: usize| format!("Rust: `{}` lines {}–{}", file_rel, a, b);
+    let mut new_fn: Option<(String, trans::FnInfo)> = None;
+    let (lean, defs) = match kind {
+        "enum" => {
+            let e = all_items(&file.items)
+                .into_iter()
+                .find_map(|i| match i {
+                    syn::Item::Enum(e) if e.ident == name => Some(e),
+                    _ => None,
+                })
+                .ok_or(format!("enum `{}` not found", name))?;
+            set_meta(meta, e.span(), &e.to_token_stream().to_string());
+            trans::translate_enum(&mut cx, &format!("{} enum `{}`", where_(meta.start, meta.end), name), e)?
+        }
+        "struct" => {
+            let s = all_items(&file.items)
+                .into_iter()
+                .find_map(|i| match i {
+                    syn::Item::Struct(s) if s.ident == name => Some(s),
+                    _ => None,
+                })
+                .ok_or(format!("struct `{}` not found", name))?;
+            set_meta(meta, s.span(), &s.to_token_stream().to_string());
+            let kept = reg_ro.structs.get(&name).map(|s| s.kept.clone()).unwrap_or_default();
+            trans::translate_struct(&mut cx, &format!("{} struct `{}` (only the listed fields)", where_(meta.start, meta.end), name), s, &kept)?
+        }
+        "const" => {
+            let c = all_items(&file.items)
+                .into_iter()
+                .find_map(|i| match i {
+                    syn::Item::Const(c) if c.ident == name => Some(c),
+                    _ => None,
+                })
+                .ok_or(format!("const `{}` not found", name))?;
+            set_meta(meta, c.span(), &c.to_token_stream().to_string());
+            trans::translate_const(&mut cx, &name, &format!("{} const `{}`", where_(meta.start, meta.end), name), c)?
+        }
+        "fn" | "method" => {
+            if kind == "method" && imp.is_none() {
+                return Err("method item without `impl`".into());
+            }
+            let (sig, body, text, span) = find_fn(file, imp.as_deref(), &name)?;
+            set_meta(meta, span, &text);
+            let lean_name = match &imp {
+                Some(t) => format!("{}.{}", t, name),
+                None => name.clone(),
+            };
+            let key = match &imp {
+                Some(t) => format!("{}::{}", t, name),
+                None => name.clone(),
+            };
+            let doc = format!("{} fn `{}`", where_(meta.start, meta.end), key);
+            let out = trans::translate_fn(&mut cx, &lean_name, &doc, sig, body)?;
+            new_fn = Some((key, out.info));
+            (out.lean, out.defs)
+        }
+        "slice" => {
+            let fn_name = str_of(item, "fn").ok_or("slice without `fn`")?;
+            let (_, body, _, _) = find_fn(file, imp.as_deref(), fn_name)?;
+            let loc = item.get("locate").ok_or("slice without `locate`")?;
+            let expr = locate(body, loc)?;
+            set_meta(meta, expr.span(), &expr.to_token_stream().to_string());
+            let mut params = vec![];
+            for p in item.get("params").and_then(|v| v.as_array()).cloned().unwrap_or_default() {
+                let a = p.as_array().ok_or("slice `params` entries must be arrays")?;
+                let lean = a.first().and_then(|x| x.as_str()).ok_or("slice param without name")?.to_string();
+                let ty = a.get(1).and_then(|x| x.as_str()).unwrap_or("Int").to_string();
+                let path = a.get(2).and_then(|x| x.as_str()).unwrap_or(&lean).to_string();
+                params.push((lean, ty, path));
+            }
+            let doc = format!("{} expression `{}` inside fn `{}`", where_(meta.start, meta.end), loc, fn_name);
+            let out = trans::translate_slice(&mut cx, &name, &doc, &expr, &params)?;
+            new_fn = Some((name.clone(), out.info));
+            (out.lean, out.defs)
+        }
+        k => return Err(format!("unknown item kind `{}`", k)),
+    };
+    let deps = cx.deps.iter().cloned().collect();
+    if let Some((k, info)) = new_fn {
+        reg.fns.insert(k, info);
+    }
+    Ok(Done { lean, defs, deps })
+}
+
+/// Record enums / structs / consts before translating anything, so that types can refer to them.
+fn prepass(src: &mut Sources, reg: &mut Registry, modules: &[Value]) {
+    for m in modules {
+        let module = str_of(m, "name").unwrap_or_default().to_string();
+        for item in m.get("items").and_then(|v| v.as_array()).cloned().unwrap_or_default() {
+            let (Some(kind), Some(file), Some(name)) = (str_of(&item, "kind"), str_of(&item, "file"), str_of(&item, "name")) else {
+                continue;
+            };
+            let Ok(f) = src.get(file) else { continue };
+            for it in all_items(&f.items) {
+                match (kind, it) {
+                    ("enum", syn::Item::Enum(e)) if e.ident == name => {
+                        let variants = e
+                            .variants
+                            .iter()
+                            .map(|v| (v.ident.to_string(), v.fields.iter().map(|f| f.ty.clone()).collect()))
+                            .collect();
+                        reg.enums.insert(name.to_string(), trans::EnumInfo { module: module.clone(), variants });
+                    }
+                    ("struct", syn::Item::Struct(s)) if s.ident == name => {
+                        let fields = s
+                            .fields
+                            .iter()
+                            .filter_map(|f| f.ident.as_ref().map(|i| (i.to_string(), f.ty.clone())))
+                            .collect();
+                        let kept = item
+                            .get("fields")
+                            .and_then(|v| v.as_array())
+                            .map(|a| a.iter().filter_map(|x| x.as_str().map(String::from)).collect())
+                            .unwrap_or_default();
+                        reg.structs.insert(name.to_string(), trans::StructInfo { module: module.clone(), fields, kept });
+                    }
+                    ("const", syn::Item::Const(c)) if c.ident == name => {
+                        reg.consts.insert(name.to_string(), (module.clone(), (*c.ty).clone()));
+                    }
+                    _ => {}
+                }
+            }
+        }
+    }
+}
+
+// ---------------------------------------------------------------- main
+
+fn usage() -> ! {
+    eprintln!("usage: iqe-translate --repo <dir> --items <items.json> --out <dir>");
+    std::process::exit(2);
+}
+
+fn main() {
+    let args: Vec<String> = std::env::args().collect();
+    let opt = |k: &str| args.iter().position(|a| a == k).and_then(|i| args.get(i + 1)).cloned();
+    let (Some(repo), Some(items), Some(out)) = (opt("--repo"), opt("--items"), opt("--out")) else { usage() };
+    let cfg_text = std::fs::read_to_string(&items).unwrap_or_else(|e| {
+        eprintln!("cannot read {}: {}", items, e);
+        std::process::exit(2)
+    });
+    let cfg: Value = serde_json::from_str(&cfg_text).unwrap_or_else(|e| {
+        eprintln!("cannot parse {}: {}", items, e);
+        std::process::exit(2)
+    });
+    let modules = cfg.get("modules").and_then(|v| v.as_array()).cloned().unwrap_or_else(|| {
+        eprintln!("{}: no `modules` array", items);
+        std::process::exit(2)
+    });
+    let out_dir = Path::new(&out);
+    std::fs::create_dir_all(out_dir).expect("create output directory");
+
+    let mut src = Sources { repo: PathBuf::from(&repo), files: BTreeMap::new() };
+    let mut reg = Registry::default();
+    prepass(&mut src, &mut reg, &modules);
+
+    let mut manifest = vec![];
+    let mut failures = 0usize;
+    let mut written = vec![];
+    for m in &modules {
+        let module = str_of(m, "name").unwrap_or_default().to_string();
+        let mut mcfg = ItemCfg::default();
+        read_cfg(&mut mcfg, m);
+        let mut body = String::new();
+        let mut deps: Vec<String> = vec![];
+        for item in m.get("items").and_then(|v| v.as_array()).cloned().unwrap_or_default() {
+            let name = str_of(&item, "name").unwrap_or("?").to_string();
+            let shown = match str_of(&item, "impl") {
+                Some(t) => format!("{}::{}", t, name),
+                None => name.clone(),
+            };
+            let mut meta = Meta::default();
+            let res = translate_item(&mut src, &mut reg, &module, &mcfg, &item, &mut meta);
+            let (status, reason, defs) = match res {
+                Ok(d) => {
+                    body.push_str(&d.lean);
+                    body.push('\n');
+                    deps.extend(d.deps);
+                    ("ok", String::new(), d.defs)
+                }
+                Err(e) => {
+                    failures += 1;
+                    eprintln!("FAILED {}.{}: {}", module, shown, e);
+                    body.push_str(&format!("-- FAILED: {}: {}\n\n", shown, e.replace('\n', " ")));
+                    ("fail", e, vec![])
+                }
+            };
+            manifest.push(json!({
+                "module": module, "name": shown, "kind": str_of(&item, "kind").unwrap_or("?"),
+                "file": str_of(&item, "file").unwrap_or("?"),
+                "start_line": meta.start, "end_line": meta.end, "hash": meta.hash,
+                "status": status, "reason": reason, "defs": defs,
+            }));
+        }
+        deps.sort();
+        deps.dedup();
+        let mut text = format!("{}\nimport IQE.Core.Rs\n", MARKER);
+        for d in &deps {
+            text.push_str(&format!("import IQE.Gen.{}\n", d));
+        }
+        text.push_str("set_option linter.unusedVariables false\n\n");
+        text.push_str(&format!("namespace IQE.Gen.{}\n\n", module));
+        if let Some(p) = str_of(m, "prelude") {
+            text.push_str(p.trim_end());
+            text.push_str("\n\n");
+        }
+        text.push_str(&body);
+        text.push_str(&format!("end IQE.Gen.{}\n", module));
+        let path = out_dir.join(format!("{}.lean", module));
+        std::fs::write(&path, text).expect("write module");
+        written.push(format!("{}.lean", module));
+    }
+    // drop generated modules of earlier runs that are no longer configured
+    if let Ok(rd) = std::fs::read_dir(out_dir) {
+        for e in rd.flatten() {
+            let n = e.file_name().to_string_lossy().to_string();
+            if n.ends_with(".lean") && !written.contains(&n) {
+                let generated = std::fs::read_to_string(e.path()).map_or(false, |s| s.starts_with(MARKER));
+                if generated {
+                    let _ = std::fs::remove_file(e.path());
+                }
+            }
+        }
+    }
+    let mf = json!({ "generator": "iqe-translate", "items": manifest });
+    std::fs::write(out_dir.join("manifest.json"), serde_json::to_string_pretty(&mf).unwrap() + "\n").expect("write manifest");
+    eprintln!("iqe-translate: {} item(s), {} failed", manifest.len(), failures);
+    std::process::exit(if failures == 0 { 0 } else { 3 });
+}
